@@ -40,7 +40,7 @@ def _alarm(signum, frame):
     raise _Timeout()
 
 
-def _work(item):
+def _work_single(item):
     """every case runs in a forked child of the pool worker: a crash of the interpreter (the real kernels do
     pointer arithmetic through as_strided; on object arrays a wild read is a segfault) or a hang inside C code
     is then an outcome of that one case, not of the whole check."""
@@ -102,6 +102,69 @@ def _work(item):
     return _after_crash(base, modname, spec, sig)
 
 
+def _work(item):
+    """item = (module, spec | [specs], limit).  A list is a *chain*: its configurations run one after the other in ONE
+    forked child, so that anything the library remembers between calls (module-level caches, buffers, flags) is carried
+    from one configuration to the next, as it would be in a user's process.  If the chain's child dies or hangs, the
+    configurations are re-run one by one, each in its own child."""
+    import select
+    modname, spec, limit = item
+    if not isinstance(spec, list):
+        return [_work_single(item)]
+    if len(spec) == 1:
+        return [_work_single((modname, spec[0], limit))]
+    r, w = os.pipe()
+    pid = os.fork()
+    if pid == 0:
+        os.close(r)
+        code = 0
+        try:
+            out = []
+            for k, sp in enumerate(spec):
+                res = _work_inner((modname, sp, limit))
+                res["chain"] = spec[:k]
+                out.append(res)
+            data = json.dumps(out, default=str).encode()
+        except BaseException:  # noqa: BLE001
+            data = b""
+            code = 3
+        try:
+            off = 0
+            while off < len(data):
+                off += os.write(w, data[off:off + 65536])
+        finally:
+            os._exit(code)
+    os.close(w)
+    chunks = []
+    deadline = time.time() + limit * len(spec) + 60
+    timed_out = False
+    while True:
+        left = deadline - time.time()
+        if left <= 0:
+            timed_out = True
+            break
+        rd, _, _ = select.select([r], [], [], min(left, 5.0))
+        if rd:
+            b = os.read(r, 1 << 20)
+            if not b:
+                break
+            chunks.append(b)
+    os.close(r)
+    if timed_out:
+        try:
+            os.kill(pid, signal.SIGKILL)
+        except OSError:
+            pass
+    os.waitpid(pid, 0)
+    data = b"".join(chunks)
+    if data and not timed_out:
+        try:
+            return json.loads(data.decode())
+        except ValueError:
+            pass
+    return [_work_single((modname, sp, limit)) for sp in spec]
+
+
 def _after_crash(base, modname, spec, sig):
     """the symbolic run killed the interpreter (signal).  Replay a sampled point on the plain code, where the same
     wild read returns foreign numbers instead of crashing, and let the case's oracle judge."""
@@ -143,6 +206,10 @@ def _work_inner(item):
                 "violations": [], "spec": spec, "paths": 0, "queries": 0, "solver_s": 0, "obligations": 0,
                 "discharged": 0, "validated": 0, "funcs": [], "twins_sat": 0, "runs": 0, "goals": 0,
                 "wall_s": 0, "tb": traceback.format_exc(limit=5)}
+    # the harness' own globals are put back to their defaults (a chain shares the process); what the *library* remembers
+    # between calls is deliberately kept
+    tm = common.tensor_mod()
+    tm.gradient__, tm.retain_grads__ = True, False
     signal.signal(signal.SIGALRM, _alarm)
     signal.alarm(int(limit))
     try:
@@ -169,16 +236,23 @@ def _work_inner(item):
     return res
 
 
-def run_pool(modname, specs, tier, seed, limit=None, procs=None, optkw=None):
+def run_pool(modname, specs, tier, seed, limit=None, procs=None, optkw=None, chain=1):
+    """chain > 1: consecutive configurations (in the order given) share one process, see _work"""
     limit = limit or (120 if tier == "quick" else 900)
     procs = procs or int(os.environ.get("VERIF_PROCS", "16"))
-    items = [(modname, s, limit) for s in specs]
+    chain = int(os.environ.get("VERIF_CHAIN", chain))
+    if chain > 1:
+        items = [(modname, specs[i:i + chain], limit) for i in range(0, len(specs), chain)]
+    else:
+        items = [(modname, s, limit) for s in specs]
     if procs <= 1 or len(items) <= 1:
         _init_worker(tier, seed, optkw)
-        return [_work(i) for i in items]
+        out = [r for i in items for r in _work(i)]
+        out.sort(key=lambda r: r["sig"])
+        return out
     ctx = mp.get_context("fork")
     with ctx.Pool(min(procs, len(items)), initializer=_init_worker, initargs=(tier, seed, optkw)) as pool:
-        out = list(pool.imap_unordered(_work, items, chunksize=max(1, min(8, len(items) // (procs * 4) or 1))))
+        out = [r for rs in pool.imap_unordered(_work, items, chunksize=max(1, min(8, len(items) // (procs * 4) or 1))) for r in rs]
     out.sort(key=lambda r: r["sig"])
     return out
 
@@ -210,7 +284,7 @@ def write_replay(prop, res, v):
     path = os.path.join(OUT, "replays", "%s-%s.json" % (prop, h))
     with open(path, "w") as f:
         json.dump({"property": prop, "module": res.get("module"), "spec": res.get("spec"), "sig": res["sig"],
-                   "violation": v}, f, indent=1, default=str)
+                   "chain": res.get("chain", []), "violation": v}, f, indent=1, default=str)
     return path
 
 
